@@ -272,6 +272,22 @@ def run(chk):
     sets = [n for n in ast.walk(fw) if isinstance(n, ast.Call) and dotted(n.func) == "self.set_data" and unparse(n.args[0]) == "t"]
     chk.ob("C13-R5", "series._temporal.Inlay._cumulate_forward[recursion]", ok and len(sets) == 1,
            "x[t] = cum_func(x[t+shift], change[t])", m.loc(fw))
+    # the initial condition covers every period the recursion may read before it has written it: from the earliest reference period to the
+    # END of the cumulation span (with soy / tty shifts a start-of-year period refers to itself or is skipped by the loop, so periods
+    # inside the span keep the initial value)
+    from ..core import inline_locals
+    span_p = params(fw)[4] if len(params(fw)) > 4 else "span"
+    inits = [c for c in ast.walk(fw) if isinstance(c, ast.Call) and dotted(c.func) == "self.set_data" and len(c.args) == 2 and unparse(c.args[1]) == params(fw)[3]]
+    ok, detail = None, "initial condition not recognised"
+    if len(inits) == 1:
+        sp = inline_locals(fw, inits[0].args[0], skip_calls=False)
+        if isinstance(sp, ast.Call) and dotted(sp.func) == "Span" and len(sp.args) >= 2:
+            lo, hi = sp.args[0], sp.args[1]
+            hi_ok = unparse(hi).replace(" ", "") in (f"{span_p}.end_date", f"{span_p}.end", f"{span_p}[-1]", f"max({span_p})")
+            lo_ok = isinstance(lo, ast.Call) and dotted(lo.func) == "min" and any(k.arg == "default" and unparse(k.value).replace(" ", "") in (f"{span_p}.start_date", f"{span_p}.start", f"{span_p}[0]") for k in lo.keywords)
+            ok = False if not hi_ok else (True if lo_ok else None)      # an unrecognised way of finding the earliest period is not a verdict
+            detail = f"initial values are set on Span({unparse(lo)[:60]}, {unparse(hi)}): from the earliest reference period {lo_ok} to the end of the span {hi_ok}"
+    chk.ob("C13-R5", "series._temporal.Inlay._cumulate_forward[initial condition covers the span]", ok, detail, m.loc(inits[0]) if inits else m.loc(fw), sure=ok is False)
     bw = m.func("Inlay._cumulate_backward")
     chk.saw(m, "Inlay._cumulate_backward")
     calls = [n for n in ast.walk(bw) if isinstance(n, ast.Call) and dotted(n.func) == "cum_func"]
@@ -280,6 +296,7 @@ def run(chk):
     chk.ob("C13-R5", "series._temporal.Inlay._cumulate_backward[recursion]", ok and len(sets) == 1,
            "x[t+shift] = cum_func(x[t], change[t])", m.loc(bw))
     chk.guard(rule_r6, chk)
+    chk.guard(rule_r7, chk)
     from .. import unused as _unused
     chk.guard(_unused.apply, chk, "C13-R91")
     from .. import args as _args
@@ -308,6 +325,51 @@ def _case_returns(f):
                     if isinstance(p_, ast.MatchValue) and isinstance(p_.value, ast.Constant) and len(rets) == 1:
                         out[p_.value.value] = rets[0].value
     return out
+
+
+def rule_r7(chk):
+    from .. import fin
+    chk.rule("C13-R7", "one annualisation factor: every `factor` of the annualised change functions (adiff, adiff_log, aroc, apct) and of the "
+             "conversions back (pct_from_apct, roc_from_apct, roc_from_aroc) evaluates to the number of periods per year for every "
+             "frequency - 1, 2, 4, 12, 365 for yearly ... daily, and 1 for integer / unknown frequencies (finite evaluation over the seven "
+             "frequencies; a helper that is handed the series is followed)", floor=7, shape_independent=True)
+    m = chk.repo.mod(MOD)
+    freqs = [(1, True), (2, True), (4, True), (12, True), (365, False), (0, False), (-1, False)]
+
+    def value_of(expr, selfname, v, regular, depth=0):
+        env = {f"{selfname}.frequency.value": v, f"{selfname}.frequency.is_regular": regular, f"{selfname}.frequency": v, "int": int}
+        if isinstance(expr, ast.Call) and depth < 2 and len(expr.args) == 1 and not expr.keywords and unparse(expr.args[0]) == selfname:
+            name = dotted(expr.func)
+            g = m._lookup(name) if name and m.has(name) else None
+            if isinstance(g, ast.FunctionDef) and len(params(g)) == 1:
+                rets = [r.value for r in walk_no_nested(g) if isinstance(r, ast.Return)]
+                if len(rets) == 1:
+                    return value_of(rets[0], params(g)[0], v, regular, depth + 1)
+        return fin.ev(expr, env)
+    n = 0
+    for q, f in m.functions():
+        if not q.startswith("Inlay."):
+            continue
+        for a_ in walk_no_nested(f):
+            if isinstance(a_, ast.Assign) and len(a_.targets) == 1 and isinstance(a_.targets[0], ast.Name) and a_.targets[0].id == "factor":
+                n += 1
+                chk.saw(m, q)
+                try:
+                    bad = None
+                    for v, regular in freqs:
+                        got = value_of(a_.value, "self", v, regular)
+                        want = v if v > 0 else 1
+                        if v == -1:
+                            continue          # UNKNOWN: any value is immaterial
+                        if got != want:
+                            bad = (v, got, want)
+                            break
+                    chk.ob("C13-R7", f"series._temporal.{q}[factor]", bad is None,
+                           f"factor = {unparse(a_.value)}: periods per year for every frequency" if bad is None else
+                           f"factor = {unparse(a_.value)}: {bad[1]} for the frequency with {bad[0]} periods per year (want {bad[2]}); the annualised change and its "
+                           "conversion back no longer use the same factor for that frequency", m.loc(a_), sure=True)
+                except fin.NotFinite as ex:
+                    chk.undecided("C13-R7", f"series._temporal.{q}[factor]", f"not evaluable: {ex}", m.loc(a_))
 
 
 def rule_r6(chk):
